@@ -395,6 +395,7 @@ fn run(scripts: &str, trace: &str, opts: &Opts) -> Res<()> {
         let mut fs = Fs { snapdir: data.join("snapshots"), cache: HashMap::new(), bytes_of: HashMap::new() };
         let mut server: Option<Server> = Some(Server::new(GraphStore::new(), &data));
         let mut flight: Option<Flight> = None;
+        let mut flight_bad = false; // the request in flight carries an upload that must be refused
         take_synced();
         for step in &s.steps {
             let op = gs(step, "op");
@@ -407,12 +408,43 @@ fn run(scripts: &str, trace: &str, opts: &Opts) -> Res<()> {
                     let res = match f.rx.recv() {
                         Ok(Evt::Point(p)) => {
                             flight = Some(f);
+                            flight_bad = false;
                             p
                         }
                         Ok(Evt::Done(st)) => format!("done:{st}"),
                         Err(_) => "died".to_string(),
                     };
                     tr.emit(event_from(step, json!({"res": res, "obs": {"dir": fs.listing(), "synced": take_synced()}})))?;
+                }
+                "Reject" => {
+                    // an upload the handler must refuse: a snapshot cut short (valid header, broken body) or garbage
+                    let (Some(sv), None) = (server.as_ref(), flight.as_ref()) else { continue };
+                    let k = gi(step, "k");
+                    let bytes = match gs(step, "kind") {
+                        "cut" => {
+                            let full = snapshot_of(&[k]);
+                            full[..full.len() - 6].to_vec() // the whole deflate stream, checksum trailer cut off
+                        }
+                        _ => b"this is not a snapshot".to_vec(),
+                    };
+                    let f = sv.import(bytes);
+                    match f.rx.recv() {
+                        Ok(Evt::Point(_)) => {
+                            flight = Some(f);
+                            flight_bad = true;
+                            tr.emit(event_from(step, json!({"res": "begin", "obs": {"dir": fs.listing(), "synced": take_synced()}})))?;
+                        }
+                        Ok(Evt::Done(st)) => {
+                            let _ = f.th.join();
+                            let mem = ids(&sv.store.blocking_read());
+                            tr.emit(event_from(step, json!({"res": "refused", "status": st, "obs": {"dir": fs.listing(), "synced": take_synced(), "mem": mem}})))?;
+                        }
+                        Err(_) => {
+                            let _ = f.th.join();
+                            server = None;
+                            tr.emit(json!({"ev": "Died", "obs": {"dir": fs.listing()}}))?;
+                        }
+                    }
                 }
                 "Step" | "Ack" => {
                     let Some(f) = flight.take() else { continue };
@@ -425,7 +457,9 @@ fn run(scripts: &str, trace: &str, opts: &Opts) -> Res<()> {
                         Ok(Evt::Done(st)) => {
                             let _ = f.th.join();
                             let mem = ids(&server.as_ref().unwrap().store.blocking_read());
-                            tr.emit(json!({"ev": "Ack", "status": st, "obs": {"dir": fs.listing(), "synced": take_synced(), "mem": mem}}))?;
+                            let ev = if flight_bad { "Refused" } else { "Ack" };
+                            flight_bad = false;
+                            tr.emit(json!({"ev": ev, "status": st, "obs": {"dir": fs.listing(), "synced": take_synced(), "mem": mem}}))?;
                         }
                         Err(_) => {
                             let _ = f.th.join();
@@ -442,6 +476,7 @@ fn run(scripts: &str, trace: &str, opts: &Opts) -> Res<()> {
                         let _ = f.tx.send(Cmd::Die);
                         let _ = f.th.join();
                     }
+                    flight_bad = false;
                     server = None; // the process is gone: the live store with it
                     if op == "PowerLoss" {
                         fs.materialise(&step["dir"])?;
